@@ -176,6 +176,136 @@ func RunHs(t *testing.T, sc *HsScenario) *HsResult {
 	return res
 }
 
+// reconnectAfterSilentLoss: a connection is up and has carried data; the client then disappears
+// without a FIN (its process is gone: nothing it sends reaches the transport any more). A new client
+// with the same window size connects over the same transport. The server side behaves like the
+// mailbox layer: it uses its connection until that fails, closes it and listens again. The transport
+// is fault free throughout, so "once the transport behaves a handshake succeeds and data flows": the
+// new client's handshake must complete and its message arrive, within a generous bound.
+func reconnectAfterSilentLoss(t *testing.T, n uint8, keepalive bool) (ok bool, what string, panicMsg string) {
+	func() {
+		defer func() {
+			if r := recover(); r != nil {
+				panicMsg = fmt.Sprint(r)
+			}
+		}()
+		synctest.Test(t, func(t *testing.T) {
+			sim := NewSim(t, func(dir, idx int, pkt []byte, now time.Duration) Fault { return Fault{} }, 10*time.Millisecond)
+			ctx, cancel := context.WithCancel(context.Background())
+			defer cancel()
+			var opts []gbn.Option
+			if keepalive {
+				opts = append(opts, gbn.WithTimeoutOptions(gbn.WithKeepalivePing(5*time.Second, 3*time.Second)))
+			}
+			var mu sync.Mutex
+			var got []string
+			var srvWG sync.WaitGroup
+			srvWG.Add(1)
+			go func() { // the listener
+				defer srvWG.Done()
+				for a := 0; a < 8 && ctx.Err() == nil; a++ {
+					conn, err := gbn.NewServerConn(ctx, sim.sendFunc(1), sim.recvFunc(1), opts...)
+					if err != nil || conn == nil {
+						if conn != nil {
+							conn.Close()
+						}
+						continue
+					}
+					for {
+						b, rerr := conn.Recv()
+						if rerr != nil {
+							break
+						}
+						mu.Lock()
+						got = append(got, string(b))
+						mu.Unlock()
+					}
+					conn.Close()
+				}
+			}()
+			has := func(m string) bool {
+				mu.Lock()
+				defer mu.Unlock()
+				for _, g := range got {
+					if g == m {
+						return true
+					}
+				}
+				return false
+			}
+			waitFor := func(m string, limit time.Duration) bool {
+				for d := time.Duration(0); d < limit; d += 50 * time.Millisecond {
+					if has(m) {
+						return true
+					}
+					time.Sleep(50 * time.Millisecond)
+				}
+				return has(m)
+			}
+			var gone sync.Map
+			send0 := sim.sendFunc(0)
+			c1, err := gbn.NewClientConn(ctx, n, func(c context.Context, b []byte) error {
+				if _, dead := gone.Load("c1"); dead {
+					return nil // the process is gone: nothing reaches the transport
+				}
+				return send0(c, b)
+			}, sim.recvFunc(0), opts...)
+			if err != nil {
+				what = "first connection: " + err.Error()
+				cancel()
+				srvWG.Wait()
+				return
+			}
+			if c1.Send([]byte("one")) != nil || !waitFor("one", 30*time.Second) {
+				what = "first connection carried no data"
+				c1.Close()
+				cancel()
+				srvWG.Wait()
+				return
+			}
+			time.Sleep(700 * time.Millisecond)
+			gone.Store("c1", true)
+			c1.Close() // releases its goroutines; its FIN goes nowhere
+			time.Sleep(300 * time.Millisecond)
+			hs := make(chan error, 1)
+			var c2 *gbn.GoBackNConn
+			c2ctx, c2cancel := context.WithCancel(ctx)
+			go func() {
+				var e error
+				c2, e = gbn.NewClientConn(c2ctx, n, sim.sendFunc(0), sim.recvFunc(0), opts...)
+				hs <- e
+			}()
+			select {
+			case e := <-hs:
+				if e != nil {
+					// a failed attempt is an error on the side that cannot proceed; the layer above
+					// dials again
+					c2, e = gbn.NewClientConn(c2ctx, n, sim.sendFunc(0), sim.recvFunc(0), opts...)
+				}
+				if e != nil {
+					what = "the new client's handshake failed twice: " + e.Error()
+				} else if c2.Send([]byte("two")) != nil || !waitFor("two", 60*time.Second) {
+					what = "the new client's handshake completed but its message did not arrive within 60 s"
+				} else {
+					ok = true
+				}
+			case <-time.After(180 * time.Second):
+				what = "the new client's handshake neither completed nor failed within 180 s: its SYNs go unanswered, and the server's old connection neither failed nor answered"
+				c2cancel()
+				<-hs
+			}
+			c2cancel()
+			if c2 != nil {
+				c2.Close()
+			}
+			cancel()
+			srvWG.Wait()
+			synctest.Wait()
+		})
+	}()
+	return
+}
+
 // hsLines: the handshake-phase events as lines for the Lean automata. Only
 // the first attempt of each side is replayed (a retry starts a fresh automaton).
 func hsLines(sc *HsScenario, res *HsResult) []string {
@@ -286,6 +416,19 @@ func c10Scenarios() []*HsScenario {
 func TestC10(t *testing.T) {
 	r := NewRecorder(t, "C10")
 	defer r.Close(t)
+	for _, n := range []uint8{1, 20, 254} {
+		for _, ka := range []bool{false, true} {
+			ok, what, pm := reconnectAfterSilentLoss(t, n, ka)
+			name := fmt.Sprintf("reconnect-after-silent-loss:n=%d:keepalive=%v", n, ka)
+			switch {
+			case pm != "" && !strings.Contains(pm, "blocked goroutines remain"):
+				r.Violate("C10/crash", pm, name)
+			case !ok && pm == "":
+				r.Violate("C10/no-reconnect-after-silent-loss", fmt.Sprintf("window %d, keepalive %v, fault-free transport; a client vanished without a FIN and a new client with the same window connects: %s", n, ka, what), name)
+			}
+			r.Case(name, true, "reconnect-after-silent-loss")
+		}
+	}
 	scs := c10Scenarios()
 	var mu sync.Mutex
 	idx := 0
